@@ -282,8 +282,10 @@ func Snapshot(c any) []bool {
 		switch f.Kind() {
 		case reflect.Slice:
 			res = append(res, f.Len() > 0)
-		default:
+		case reflect.Ptr, reflect.Interface:
 			res = append(res, !f.IsNil())
+		default:
+			res = append(res, false) // not an injectable kind: never set by the container
 		}
 	}
 	return res
@@ -297,6 +299,9 @@ func (s *Scn) token(v reflect.Value) Token {
 		v = v.Elem()
 	}
 	if v.Kind() != reflect.Ptr {
+		if !v.IsValid() || v.IsZero() {
+			return Token{-1, -1}
+		}
 		return Token{-2, -1}
 	}
 	if v.IsNil() {
